@@ -413,7 +413,7 @@ func eventsHash(evs sdk.Events) string {
 		for _, a := range e.Attributes {
 			h.Write([]byte(a.Key))
 			h.Write([]byte{1})
-			h.Write([]byte(a.Value))
+			h.Write([]byte(maskPtr(a.Value)))
 			h.Write([]byte{2})
 		}
 	}
